@@ -56,10 +56,10 @@ def load_known_findings():
 
 
 # ---------------------------------------------------------------- sanitizer signatures
-SAN_RE = re.compile(r"ERROR: (AddressSanitizer|LeakSanitizer|ThreadSanitizer|MemorySanitizer): ([A-Za-z0-9_\- ]+?)(?: on | \(|:|$)", re.M)
+SAN_RE = re.compile(r"(?:ERROR|WARNING): (AddressSanitizer|LeakSanitizer|ThreadSanitizer|MemorySanitizer): ([A-Za-z0-9_\- ]+?)(?: on | \(|:|$)", re.M)
 UB_RE = re.compile(r"^(\S+?):(\d+):(\d+): runtime error: (.*)$", re.M)
 ALLOC_FN = re.compile(r"^(default_malloc|default_realloc|ares_malloc|ares_malloc_zero|ares_realloc|ares_realloc_zero|ares_strdup|ares_malloc_data)$")
-FRAME_RE = re.compile(r"^\s*#\d+ 0x[0-9a-f]+ in (\S+) (/\S+?):(\d+)", re.M)
+FRAME_RE = re.compile(r"^\s*#\d+ (?:0x[0-9a-f]+ in )?(\S+) (/\S+?):(\d+)", re.M)   # ASan/UBSan form and ThreadSanitizer form
 
 
 def sanitizer_signature(text):
@@ -113,7 +113,7 @@ def san_env():
     e["ASAN_OPTIONS"] = "detect_leaks=1:abort_on_error=0:exitcode=99:allocator_may_return_null=1:detect_stack_use_after_return=0:symbolize=1:handle_abort=1:max_allocation_size_mb=4096" + (":external_symbolizer_path=" + sym if sym else "")
     e["UBSAN_OPTIONS"] = "print_stacktrace=1:halt_on_error=1:exitcode=98" + (":external_symbolizer_path=" + sym if sym else "")
     e["LSAN_OPTIONS"] = "exitcode=97:print_suppressions=0"
-    e["TSAN_OPTIONS"] = "halt_on_error=1:exitcode=96:detect_deadlocks=1:second_deadlock_stack=1" + (":external_symbolizer_path=" + sym if sym else "")
+    e["TSAN_OPTIONS"] = "halt_on_error=1:exitcode=96:detect_deadlocks=1:second_deadlock_stack=1:suppressions=" + os.path.join(VERIF, "harness", "tsan.supp") + (":external_symbolizer_path=" + sym if sym else "")
     for k in ("LOCALDOMAIN", "RES_OPTIONS", "HOSTALIASES", "CARES_HOSTS"):
         e.pop(k, None)
     return e
